@@ -1779,6 +1779,204 @@ func genUpdate(i int, r *core.Rand) caseDesc {
 	return c
 }
 
+// ---------- rate engine: Update to a SHORTER interval (the quantum must follow the new interval) ----------
+
+// runShorten: a limiter with an existing total and / or handler limit at a long interval, a little traffic,
+// Update() to an interval 2 / 10 / 50 times shorter (same or different MaxQPS), then calls above the limit
+// across several ticks of the new ticker. Logical bound: the calls admitted between the first call after the
+// update and the last reply are at most capacity + k * (once(new MaxQPS, new interval) + 1), k = refill ticks
+// observed (VerifTicks read before the first call and after the last reply). With two limiters in force the
+// global tick counter counts both tickers; k is then also capped by the sound wall-clock direction already used
+// for the update cases (one ticker fires at most elapsed/interval + 3 times in a window), which can only loosen.
+func runShorten(c caseDesc) *report {
+	rp := &report{extra: map[string]interface{}{}}
+	interval0 := time.Duration(c.IntervalMs) * time.Millisecond
+	rs := &rateState{arrived: map[string]bool{}, passed: map[string]bool{}, handled: map[string]bool{}}
+	curRate.Store(rs)
+	total := c.Mode == "total" || c.Mode == "both"
+	handler := c.Mode == "handler" || c.Mode == "both"
+	mk := func(qps int, interval time.Duration, route string) overloader.LimitConfig {
+		cfg := overloader.LimitConfig{QPSInterval: interval}
+		if total {
+			cfg.MaxTotalQPS = int32(qps)
+		}
+		if handler && route != "" {
+			cfg.MaxHandlerQPS = []overloader.HandlerLimit{{ServiceMethod: route, MaxQPS: int32(qps)}}
+		}
+		return cfg
+	}
+	ov := overloader.New(mk(c.MaxQPS, interval0, ""))
+	srv := erpc.NewPeer(erpc.PeerConfig{}, rateArrive{}, ov, ratePassed{})
+	rs.callRoute = srv.RouteCallFunc(RateCall)
+	rs.pushRoute = srv.RoutePushFunc(RatePush)
+	cur := mk(c.MaxQPS, interval0, rs.callRoute)
+	if handler {
+		ov.Update(cur) // the first Update introducing the handler limit (full bucket, long interval)
+	}
+	cli := erpc.NewPeer(erpc.PeerConfig{})
+	var links []*bed.Link
+	defer func() {
+		park := cur
+		park.QPSInterval = time.Second
+		ov.Update(park)
+		n := int64(len(park.MaxHandlerQPS))
+		if total {
+			n++
+		}
+		atomic.AddInt64(&liveParked, n)
+		for _, l := range links {
+			l.CA.Sever(false)
+		}
+		srv.Close()
+		cli.Close()
+	}()
+	for i := 0; i < 4; i++ {
+		l, err := bed.Connect(cli, srv, erpc.DefaultProtoFunc(), erpc.DefaultProtoFunc(), nil)
+		if err != nil {
+			rp.inconclusive = err.Error()
+			return rp
+		}
+		links = append(links, l)
+	}
+	var seq int64
+	call := func(sess erpc.Session) {
+		tok := fmt.Sprintf("s%d", atomic.AddInt64(&seq, 1))
+		var res string
+		if _, st := sess.Call(rs.callRoute, tok, &res, erpc.WithSetMeta("tok", tok)).Reply(); !st.OK() {
+			atomic.AddInt64(&rp.rejected, 1)
+		}
+	}
+	var wg sync.WaitGroup
+	for j := 0; j < c.MaxQPS/4+1; j++ { // a little traffic under the first configuration; all replies in before the update
+		wg.Add(1)
+		go func(j int) { defer wg.Done(); call(links[j%len(links)].A) }(j)
+	}
+	if !waitWG(&wg, watchdog) {
+		rp.inconclusive = "warm-up calls incomplete after the watchdog"
+		return rp
+	}
+	newInterval := time.Duration(c.Steps[0].Arg) * time.Millisecond
+	newQPS := c.Steps[1].Arg
+	cur = mk(newQPS, newInterval, rs.callRoute)
+	ov.Update(cur)
+	// the bucket never held more than the OLD capacity, an update adds no tokens, and refills are the only other
+	// source: whatever the new capacity is, admitted <= old capacity + ticks * quantum
+	capacity := int64(c.MaxQPS)
+	once := onceOf(newQPS, newInterval)
+	tickers := int64(0)
+	if total {
+		tickers++
+	}
+	if handler {
+		tickers++
+	}
+	wantTicks := int64(c.Rounds) * tickers
+	parked := atomic.LoadInt64(&liveParked)
+	bound := func(k int64) int64 { return capacity + k*(once+1) }
+
+	tStart := time.Now()
+	tb := overloader.VerifTicks()
+	p0 := atomic.LoadInt64(&rs.nPassed)
+	var stop int32
+	var fmu sync.Mutex
+	for g := 0; g < 8; g++ {
+		wg.Add(1)
+		go func(g int) {
+			defer wg.Done()
+			for atomic.LoadInt32(&stop) == 0 {
+				call(links[g%len(links)].A)
+				time.Sleep(200 * time.Microsecond)
+			}
+		}(g)
+	}
+	// traffic runs until enough refill ticks of the new ticker(s) have been OBSERVED (logical), watchdog => inconclusive;
+	// meanwhile: admitted so far (an under-count) against the ticks so far, from the start of the window
+	deadline := time.Now().Add(watchdog)
+	timedOut := false
+	for overloader.VerifTicks()-tb < wantTicks {
+		if time.Now().After(deadline) {
+			timedOut = true
+			break
+		}
+		a := atomic.LoadInt64(&rs.nPassed) - p0
+		k := overloader.VerifTicks() - tb
+		if tickers == 1 && a > bound(k) {
+			fmu.Lock()
+			rp.add("rate-exceeded", fmt.Sprintf("after Update(QPSInterval %dms -> %dms, MaxQPS %d -> %d): %d calls admitted with %d refill ticks observed so far; capacity %d + ticks*(once %d + 1) = %d",
+				c.IntervalMs, c.Steps[0].Arg, c.MaxQPS, newQPS, a, k, capacity, once, bound(k)), nil)
+			fmu.Unlock()
+		}
+		time.Sleep(300 * time.Microsecond)
+	}
+	atomic.StoreInt32(&stop, 1)
+	if !waitWG(&wg, watchdog) {
+		rp.inconclusive = "load calls incomplete after the watchdog"
+		return rp
+	}
+	if timedOut {
+		rp.inconclusive = "the refill ticks of the new ticker were not observed (watchdog)"
+		return rp
+	}
+	p1 := atomic.LoadInt64(&rs.nPassed)
+	ta := overloader.VerifTicks()
+	elapsed := time.Since(tStart)
+	k := ta - tb
+	kNote := "refill ticks observed"
+	if tickers > 1 {
+		// both tickers are in the global counter; one ticker cannot have fired more often than this
+		if w := int64(elapsed/newInterval) + 3 + parked*(int64(elapsed/time.Second)+2); w < k {
+			k = w
+			kNote = fmt.Sprintf("ticks one ticker can have fired in %v (of %d observed for both tickers)", elapsed.Round(time.Millisecond), ta-tb)
+		}
+	}
+	admitted := p1 - p0
+	rp.evals++
+	if admitted > bound(k) {
+		fmu.Lock()
+		rp.add("rate-exceeded", fmt.Sprintf("after Update(QPSInterval %dms -> %dms, MaxQPS %d -> %d): %d calls admitted between the first call and the last reply, %d %s; capacity %d + ticks*(once %d + 1) = %d",
+			c.IntervalMs, c.Steps[0].Arg, c.MaxQPS, newQPS, admitted, k, kNote, capacity, once, bound(k)), nil)
+		fmu.Unlock()
+	}
+	rp.admitted = admitted
+	rp.extra["variant"] = c.Mode
+	rp.extra["interval_ms"], rp.extra["max_qps"] = []int{c.IntervalMs, c.Steps[0].Arg}, []int{c.MaxQPS, newQPS}
+	rp.extra["once_configured"], rp.extra["capacity"] = once, capacity
+	rp.extra["ticks_observed"], rp.extra["ticks_used_in_bound"] = ta-tb, k
+	rp.extra["admitted_in_window"], rp.extra["admitted_bound"] = admitted, bound(k)
+	rp.extra["rejected"], rp.extra["window_ms"] = atomic.LoadInt64(&rp.rejected), int64(elapsed/time.Millisecond)
+	core.Add("rate_shorten_cases", 1)
+	core.Add("rate_shorten_ticks_observed", ta-tb)
+	core.Add("rate_shorten_admitted", admitted)
+	core.Add("rate_shorten_bound_total", bound(k))
+	core.Add("rate_admitted", admitted)
+	rp.sig = fmt.Sprintf("rate/%s/cap%d-%d/int%d-%dms", c.HClass, c.MaxQPS, newQPS, c.IntervalMs, c.Steps[0].Arg)
+	rp.nontrivial = admitted > 0 && ta-tb > 0 && atomic.LoadInt64(&rp.rejected) > 0
+	return rp
+}
+
+func genShorten(i int, r *core.Rand) caseDesc {
+	c := caseDesc{Engine: "rate", Sessions: 4, Seed: int64(r.Uint64() >> 1), MaxQPS: 100}
+	c.Mode = []string{"both", "total", "handler"}[i%3]
+	type iv struct{ from, to, ratio int }
+	x := [][]iv{{{100, 50, 2}, {80, 40, 2}}, {{1000, 100, 10}, {500, 50, 10}}, {{1000, 20, 50}, {500, 10, 50}}}[(i/3)%3][r.Intn(2)]
+	c.IntervalMs = x.from
+	if x.ratio == 2 {
+		c.MaxQPS = 400 // a quantum well above the one-per-tick slack of the statement, or a factor of two drowns in it
+	}
+	newQPS := []int{c.MaxQPS, c.MaxQPS, c.MaxQPS * 6 / 10, c.MaxQPS * 2}[(i/9+r.Intn(2)*2)%4]
+	c.Steps = []step{{Op: "update-interval", Arg: x.to}, {Op: "update-maxqps", Arg: newQPS}}
+	c.Rounds = 12 // refill ticks of the new ticker to load across
+	if x.ratio == 2 {
+		c.Rounds = 30 // a factor of two needs a longer run to rise above the capacity term
+	}
+	if x.ratio == 50 {
+		c.Rounds = 40 // 10..20 ms ticks: a longer run, so that the demand within it exceeds the bound
+	}
+	c.HClass = fmt.Sprintf("update-interval-shorter/%s-r%d", c.Mode, x.ratio)
+	c.Class = "rate/" + c.HClass
+	return c
+}
+
 // fakeCtx lets the header hook be driven directly: the limiter only asks for the service method.
 type fakeCtx struct {
 	erpc.ReadCtx
@@ -1932,6 +2130,8 @@ func execute(id string, c caseDesc) {
 		rp = runSeq(c)
 	case c.Engine == "conn":
 		rp = runConc(c)
+	case strings.HasPrefix(c.HClass, "update-interval-shorter/"):
+		rp = runShorten(c)
 	case strings.HasPrefix(c.HClass, "update-"):
 		rp = runUpdate(c)
 	case strings.HasPrefix(c.HClass, "window-"):
@@ -2019,10 +2219,10 @@ func main() {
 	}
 
 	nSeq, nConc, nLin, linPer, nRate := 130, 24, 20, 60, 24
-	nWin, nUpd := 8, 8
+	nWin, nUpd, nShort := 8, 8, 12
 	if *tier == "thorough" {
 		nSeq, nConc, nLin, linPer, nRate = 4400, 600, 400, 100, 500
-		nWin, nUpd = 128, 128
+		nWin, nUpd, nShort = 128, 128, 144
 		minBudget = 80
 	}
 	type job struct {
@@ -2031,14 +2231,19 @@ func main() {
 	}
 	var jobs []job
 	r := core.NewRand(*seed, 18)
-	// the windowed rate cases come first: no ticker of an earlier rate case of the process is alive yet
+	// the rate cases that read the process-global tick counter most closely come first (windowed, then update,
+	// then shorten): few or no tickers of earlier rate cases of the process are alive yet, and those are accounted for
+	rw := core.NewRand(*seed, 181)
+	for i := 0; i < nWin; i++ {
+		jobs = append(jobs, job{fmt.Sprintf("win%04d", i), genWindow(i, rw)})
+	}
 	ru := core.NewRand(*seed, 182)
 	for i := 0; i < nUpd; i++ {
 		jobs = append(jobs, job{fmt.Sprintf("upd%04d", i), genUpdate(i, ru)})
 	}
-	rw := core.NewRand(*seed, 181)
-	for i := 0; i < nWin; i++ {
-		jobs = append(jobs, job{fmt.Sprintf("win%04d", i), genWindow(i, rw)})
+	rs := core.NewRand(*seed, 183)
+	for i := 0; i < nShort; i++ {
+		jobs = append(jobs, job{fmt.Sprintf("short%04d", i), genShorten(i, rs)})
 	}
 	for i := 0; i < nSeq; i++ {
 		c := genSeq(seqClasses[i%len(seqClasses)], r)
